@@ -1020,7 +1020,7 @@ func main() {
 		{qp, []string{"MPSC.TryPush", "MPSC.pushSlowPath", "MPSC.resize", "MPSC.TryPop", "MPSC.getNextBuffer", "MPSC.newBufferTryPush", "MPSC.newBufferAndOffset"}},
 		{lp, []string{"ring.add", "ring.drainTo", "Striped.Add", "Striped.expandOrRetry", "Striped.DrainTo"}},
 		{xs, []string{"Adder.Add", "Adder.Value"}},
-		{hp, []string{"Map.Get", "Map.Compute", "Map.resize", "Map.waitForResize", "Map.Range"}},
+		{hp, []string{"Map.Get", "Map.Compute", "Map.resize", "Map.waitForResize", "Map.Range", "Map.copyBucket", "Map.copyBucketWithDestLock", "Map.newerTableExists", "Map.resizeInProgress"}},
 	}
 	for _, g := range groups {
 		listed := map[string]bool{}
